@@ -86,7 +86,7 @@ def gen_block(r, name, scripts, use_ai=True, use_lua=True, max_rules=4, force=No
             if models.line_count(content, e) is not None:
                 expected.append(("line-count", sev_num))
         elif k == "check-lua":
-            which = r.choice(["const", "nil"])
+            which = r.choice(["const", "nil", "fresh"] if "fresh" in scripts else ["const", "nil"])
             attrs.append(("check-lua", scripts[which]))
             if which == "const":
                 expected.append(("check-lua", sev_num))
@@ -136,7 +136,8 @@ def add_affects(r, s, p=0.35):
         touched = []
         for b in blocks:
             if b.lines and r.random() < p:
-                b.attrs.insert(1, ("affects", ":ghost-" + b.name))
+                b.two_targets = r.random() < 0.3      # two unmodified targets: two diagnostics with the same range and code
+                b.attrs.insert(1, ("affects", (":ghost-%s, :spectre-%s" % (b.name, b.name)) if b.two_targets else ":ghost-" + b.name))
                 touched.append(b)
         opener = s.files[path].split(" ", 1)[0]
         s.files[path] = render_file(blocks, opener)
@@ -149,8 +150,9 @@ def add_affects(r, s, p=0.35):
             diff.append("@@ -%d,0 +%d,1 @@\n+%s\n" % (n - 1 - k, n, b.lines[0]))
             sev = dict((a, v) for a, v in b.attrs).get("severity")
             sevn = {"error": 1, "warning": 2, "info": 3, "hint": 4}[(sev or "error").lower()]
-            b.expected.append(("affects", sevn))
-            s.expected.append((path, b.name, "affects", sevn))
+            for _ in range(2 if b.two_targets else 1):
+                b.expected.append(("affects", sevn))
+                s.expected.append((path, b.name, "affects", sevn))
     return "".join(diff)
 
 
